@@ -222,10 +222,12 @@ func (s *state) transportLevel() {
 	if os.Getenv("VERIF_RACE") == "1" {
 		return
 	}
-	// nothing started here may outlive this family (other families run in synctest bubbles in this process)
+	// nothing started here may outlive this family (other families run in synctest bubbles in this process).
+	// Every host and socket is closed by its case; what may linger for a few seconds are pure timer goroutines
+	// of pion/sctp (Stream.SetReadDeadline, armed by BasicHost's stream Close): they are given 3 s and counted.
 	baseline := runtime.NumGoroutine()
 	defer func() {
-		for dl := time.Now().Add(10 * time.Second); runtime.NumGoroutine() > baseline && time.Now().Before(dl); {
+		for dl := time.Now().Add(3 * time.Second); runtime.NumGoroutine() > baseline && time.Now().Before(dl); {
 			time.Sleep(20 * time.Millisecond)
 		}
 		s.r.Count("tpt_goroutines_left_after_family", max(0, runtime.NumGoroutine()-baseline))
